@@ -1,3 +1,4 @@
+mod c04;
 mod c08;
 mod c09;
 mod c10;
@@ -15,6 +16,7 @@ fn main() {
     let args = Args::parse();
     let code = match args.prop.as_str() {
         "C01" | "C02" | "C03" => lexprops::main(&args),
+        "C04" | "C12" => c04::main(&args),
         "C08" => c08::main(&args),
         "C09" => c09::main(&args),
         "C10" => c10::main(&args),
